@@ -28,13 +28,33 @@ META = {
                   "3 repetitions for map order, virtual clock = the case's now; the quick tier replays a seed-chosen 1/16 slice of the "
                   "two-id collision universe and every third convergence triple, the thorough tier half / all of them) and comparing receiver and returned change with the "
                   "specification's, by executing the convergence schedules on real objects, and by validating recorded random merge "
-                  "sequences on descriptors with 12 instances / 8 partitions + 6 owners against the specification.",
+                  "sequences on descriptors with 12 instances / 8 partitions + 6 owners against the specification. "
+                  "The rest of the memberlist.Mergeable contract is specified and bound too (RingContract.tla, PartitionEdit.tla): "
+                  "MergeContent = Content (a change is nil exactly when its content is empty; Merge never drops an id), "
+                  "RemoveTombstones(limit) = GC with limits in half seconds (strictly-before boundary, zero time = the reader's view, "
+                  "twice = no-op, counts; negative control: 'at or before' is refuted), Clone (equal, independent, not mutated by a later "
+                  "in-place Merge), codec round trip (every second replayed Merge receives its argument encode -> decode), nil / foreign "
+                  "arguments. For the partition ring every mutator (AddPartition, UpdatePartitionState, UpdatePartitionStateChangeLock, "
+                  "RemovePartition, AddOrUpdateOwner, RemoveOwner) is a specification operator; TLC decides that a local CAS (strip "
+                  "tombstones, mutate, Merge with localCAS) reports a change exactly when the mutator did, touches only the edited key and "
+                  "that the change carries the edit to a replica holding the pre-state and to a fresh one (EditLaws, under the fresh-clock "
+                  "proviso; removals also in the same second), and every enumerated (stored, mutator, clock) is executed on real objects "
+                  "with all intermediate values compared. Thorough adds three partitions, two owners of one partition, two partitions x two "
+                  "owners for the edits, all partition states x full lock register x a writer clock that is behind.",
     "level_note": "Exhaustive within the stated small universes only; associativity/convergence for several ids relies on merge being "
                   "entry-wise when no tokens are shared (checked for pairs of two-id descriptors, sampled by the recorded traces). "
                   "Trusted: TLC, the projection harness/internal/abs/ringmerge.go (token lists as sets + sortedness check, unix seconds "
                   "relative to 2000-01-01), testing/synctest's clock. Named deviations kept in the specification: an entry stamped 0 is "
                   "invisible to a replica that lacks it (ZeroTimestamp), owner tombstones keep a dead payload (TombstonePayload), "
-                  "collisions are resolved without touching the loser's timestamp (ResolveWithoutTimestamp, see C05).",
+                  "collisions are resolved without touching the loser's timestamp (ResolveWithoutTimestamp, see C05); a live -> live edit in the "
+                  "very second of the previous write of that entry is dropped by the local-CAS merge although the mutator reported a change "
+                  "(SameSecondEditLost, e.g. RemoveOwner then AddOrUpdateOwner within one second; TLC exhibits it in MC_pedit_samesecond); "
+                  "AddPartition over an entry whose lock register was ever written - in production a tombstone - keeps that lock register "
+                  "(LockSurvivesRecreation, MC_pedit_lockwitness). Observed, outside the property: PartitionRingDesc.MergeContent() starts with "
+                  "as many empty strings as it has entries; PartitionRingDesc.Clone() shares token storage with the original although "
+                  "Mergeable.Clone is documented as a deep copy (counted in the evidence). Not bound: the instance ring's own mutators "
+                  "(AddIngester, RemoveIngester, ClaimTokens - they belong to the lifecycler properties), three ids sharing tokens in the "
+                  "replay (MC_gen_n3.cfg exists, not in a tier: its slicing needs tuning; C05's RingReplica covers three colliding ids).",
     "technique": "TLA+ specifications (RingMerge.tla, PartitionMerge.tla) model-checked by TLC; TLC-generated cases replayed into the real "
                  "code; traces recorded from the real code validated by TLC",
     "design_ref": "DESIGN.md 2 C03",
@@ -44,9 +64,11 @@ META = {
 def run(ctx):
     quick = ctx.tier == "quick"
     ctx.rule = ("one case = one Merge(mine, other, localCAS, now) of the enumerated universe (receiver and change compared), one "
-                "convergence triple (7 schedule shapes x 6 permutations executed, final descriptor compared) or one recorded Merge "
+                "convergence triple (7 schedule shapes x 6 permutations executed, final descriptor compared), one (descriptor, tombstone "
+                "limit) contract case, one (stored, mutator, clock) local-CAS edit case or one recorded Merge "
                 "call accepted by the trace specification; non-trivial = the merge changes the receiver (non-nil change; also for recorded "
-                "calls) / at least two of the three updates are non-empty; distinct = distinct TLC states (operand tuples)")
+                "calls and edits) / at least two of the three updates are non-empty / a tombstone is collected; distinct = distinct TLC "
+                "states (operand tuples)")
     ctx.assumptions = ["receivers are normalised (sorted, duplicate-free token lists; LEFT without tokens) as Desc.Merge requires",
                        "timestamps are unix seconds: specification time t>0 is 2000-01-01T00:00:00Z + t s on the synctest clock, 0 is 0",
                        "instance ids i-1..i-9 / i-01..i-12 (string order = numeric order)"]
@@ -60,16 +82,24 @@ def run(ctx):
                     ("RingMergeLaws", "MC_laws_pairs_shared.cfg"),
                     ("RingMergeLaws", "MC_laws_pairs_disjoint.cfg"),
                     ("PartitionMergeLaws", "MC_plaws_part_full.cfg"), ("PartitionMergeLaws", "MC_plaws_own.cfg"),
-                    ("PartitionMergeLaws", "MC_plaws_mixed.cfg")]
+                    ("PartitionMergeLaws", "MC_plaws_mixed.cfg"), ("PartitionMergeLaws", "MC_plaws_three.cfg"),
+                    ("PartitionEdit", "MC_pedit_contract.cfg")]
     # ---- 2. spec -> code: every enumerated merge (generated alongside the law runs) -----------
     nsl = 16 if quick else 2
     gen_runs = [("RingMergeGen", "MC_gen_n1.cfg", None),
                 ("RingMergeGen", "MC_gen_n2.cfg", {"@@NSLICES@@": nsl, "@@SLICE@@": ctx.seed % nsl}),
                 ("PartitionMergeGen", "MC_pgen_part.cfg", None), ("PartitionMergeGen", "MC_pgen_own.cfg", None),
                 ("PartitionMergeGen", "MC_pgen_mixed.cfg", None)]
-    if not quick:
+    # the rest of the Mergeable contract (MergeContent, RemoveTombstones(limit), Clone, codec) and the partition ring's own
+    # mutators run as a local CAS + merge of the change on a second replica: laws decided and gc / pgc / pedit cases emitted
+    if quick:
+        gen_runs += [("RingContract", "MC_contract_ring_quick.cfg", None), ("PartitionEdit", "MC_pedit_quick.cfg", None)]
+    else:
         gen_runs += [("RingMergeGen", "MC_gen_n2_full.cfg", {"@@NSLICES@@": 8, "@@SLICE@@": ctx.seed % 8}),
-                     ("PartitionMergeGen", "MC_pgen_own2.cfg", None), ("PartitionMergeGen", "MC_pgen_two.cfg", None)]
+                     ("PartitionMergeGen", "MC_pgen_own2.cfg", None), ("PartitionMergeGen", "MC_pgen_two.cfg", None),
+                     ("PartitionMergeGen", "MC_pgen_mixed2.cfg", None), ("PartitionMergeGen", "MC_pgen_three.cfg", None),
+                     ("RingContract", "MC_contract_ring.cfg", None), ("PartitionEdit", "MC_pedit_full.cfg", None),
+                     ("PartitionEdit", "MC_pedit_two.cfg", {"@@NSLICES@@": 16, "@@SLICE@@": ctx.seed % 16})]
     width = 4
     wk = rc.par_workers(width)
 
@@ -100,6 +130,15 @@ def run(ctx):
         ctx.extra["provisos_shown_necessary"] = True
         return None
 
+    def refuted(module, cfg, inv, key):   # negative controls / witnesses: TLC must refute a deliberately wrong or too strong model
+        def f():
+            r = rc.locked_tlc(ctx, rc.FAMILY, module, cfg=cfg, workers=2, timeout=rc.TLC_TIMEOUT, count=False)
+            if r.timed_out or r.error or r.violated != inv:
+                raise verif.Inconclusive("%s: expected TLC to refute %s, got %s %s" % (cfg, inv, r.violated, (r.error or "")[:200]))
+            ctx.extra[key] = True
+            return None
+        return f
+
     # code -> spec runs beside the model checking: record random merge sequences, then let TLC recompute every call
     tdir = os.path.dirname(ctx.path("traces", "x"))
     tn, tm, tnp, tno = 12, 24, 8, 6
@@ -122,6 +161,9 @@ def run(ctx):
     jobs = [gen(*g) for g in gen_runs[1:2]] + [law(*l) for l in law_runs] + [gen(*g) for g in gen_runs[:1] + gen_runs[2:]]
     if not quick:
         jobs.append(noproviso)
+        jobs += [refuted("RingContract", "MC_contract_neg.cfg", "GCWrongIsGC", "tombstone_limit_boundary_shown_observable"),
+                 refuted("PartitionEdit", "MC_pedit_samesecond.cfg", "NegSameSecond", "named_behaviour_SameSecondEditLost_exhibited"),
+                 refuted("PartitionEdit", "MC_pedit_lockwitness.cfg", "NegLockWitness", "named_behaviour_LockSurvivesRecreation_exhibited")]
     results = rc.run_parallel([record_and_validate] + jobs, width + 1)
     rec_res, n1, n2 = results[0]
     results = results[1:]
